@@ -53,6 +53,9 @@ def collect(P):
     # InnerIndexReader::reload holds a reader-wide lock from before it loads the segments until after it stored the searcher
     P.flag("RELOAD_SERIALIZED", "src/reader/mod.rs",
            r"fn reload\(&self\) -> crate::Result<\(\)> \{\s*let _\w+ = self\s*\.reload_lock\s*\.lock\(\).{0,700}?self\.searcher\.store\(searcher\);")
+    # MmapDirectory's lock guard (ReleaseLockFile): does its drop remove the lock file? (it must not: flock locks belong to the inode)
+    P.flag("MMAP_LOCK_RELEASE_UNLINKS", "src/directory/mmap_directory/mod.rs",
+           r"impl Drop for ReleaseLockFile \{\s*fn drop\(&mut self\) \{[^}]*?(remove_file|\.delete\()")
     # MmapDirectory::sync_directory (unix): opens the root and fsyncs it
     P.flag("SYNC_DIRECTORY_FSYNCS_ROOT", "src/directory/mmap_directory/mod.rs",
            r"#\[cfg\(not\(windows\)\)\]\s*fn sync_directory\(&self\) -> Result<\(\), io::Error> \{.{0,400}?open\(&self\.inner\.root_path\)\?;\s*fd\.sync_(data|all)\(\)\?;")
